@@ -1484,9 +1484,14 @@ void Validator::ValidatorImpl::validateReset(const ResetPtr &reset, const Compon
         description += "with variable '" + reset->variable()->name() + "', ";
         auto var = reset->variable();
         auto varParent = owningComponent(var);
-        varParentName = varParent->name();
-        if (varParentName != component->name()) {
+        if (varParent == nullptr) {
+            // A variable that is in no component is certainly not in this one.
             varOutsideComponent = true;
+        } else {
+            varParentName = varParent->name();
+            if (varParentName != component->name()) {
+                varOutsideComponent = true;
+            }
         }
     }
 
@@ -1497,9 +1502,13 @@ void Validator::ValidatorImpl::validateReset(const ResetPtr &reset, const Compon
 
         auto var = reset->testVariable();
         auto varParent = owningComponent(var);
-        testVarParentName = varParent->name();
-        if (testVarParentName != component->name()) {
+        if (varParent == nullptr) {
             testVarOutsideComponent = true;
+        } else {
+            testVarParentName = varParent->name();
+            if (testVarParentName != component->name()) {
+                testVarOutsideComponent = true;
+            }
         }
     }
 
